@@ -51,7 +51,7 @@ Example C13_perl_ex2 : fst (perl_parse_ucd [97;123;49;125]) = Err (PerlError [12
 Proof. vm_compute. reflexivity. Qed.
 
 (* ---------------------------------------------------------------- python-brace ---------------- *)
-From I18n Require Import Generated.PyConsts Generated.PyFmtInfo Model.FmtPyBrace Spec.CPyFormat Proofs.FmtPyBrace Proofs.FmtPyBraceMarkup Proofs.FmtPyBraceSpec Proofs.FmtPyBraceGen.
+From I18n Require Import Generated.PyConsts Generated.PyFmtInfo Model.FmtPyBrace Model.FmtPyBraceDomain Spec.CPyFormat Proofs.FmtPyBrace Proofs.FmtPyBraceMarkup Proofs.FmtPyBraceSpec Proofs.FmtPyBraceFlat Proofs.FmtPyBraceGen.
 
 (* pybrace_parse_gen      : model of lib/strformat/pybrace.py with the generated tables (what is extracted and compared)
    cpy_markup_ok          : Spec/CPyFormat.v part A, the iterator behind string.Formatter().parse
@@ -123,8 +123,7 @@ Print Assumptions C13_py_flat_formats_refuted.
    formatted by that spec (Spec/CPyFormat.v: parse_internal_render_format_spec + the per-type checks), unless the spec has
    "," with b c o x X or a sign / "#" with c (spec_guard).  Proofs/FmtPyBraceSpec.v: CPython's spec parser is simulated by
    the model's _format_spec_re scanner (parse_spec_sim), then every combination of type character, flags, alignment,
-   precision and value kind is checked.  This is the core of C13_py_flat_formats; the argument bookkeeping around it
-   (autonumbering, index / keyword lookup per field) is not proved. *)
+   precision and value kind is checked. *)
 Theorem C13_py_spec_types_sound : forall U M, ucd_spec U M -> forall ftext tl tp v,
   spec_types U M ftext tl = Ok tp -> forallb not_brace tl = true -> spec_guard U tl = true ->
   val_in v tp = true -> format_value (u_decval U) v tl = FSuccess.
@@ -137,6 +136,25 @@ Theorem C13_py_spec_types_sound_generated_tables : forall ftext tl tp v,
 Proof. exact gen_spec_sound. Qed.
 Print Assumptions C13_py_spec_types_sound_generated_tables.
 
+(* The second clause of the property.  flat_guard: every field the scanner finds has no nested field, a name without "." and
+   "[" (so: empty, an index or a keyword), and a format spec outside D24.  args_match: for every key of the reported
+   argument_map, str.format's lookup (args[i] / kwargs[name]) finds a value whose type is in the reported (common) type set:
+   a str, a float, or an int in range(0x110000).  Then str.format succeeds (Spec/CPyFormat.v: the markup iterator, automatic /
+   manual numbering, lookup, conversion, format spec).  Proofs/FmtPyBraceFlat.v: the fields the iterator yields are the
+   model's fields with the same name, spec and conversion; _next_arg_index tracks CPython's AutoNumber state; each field's
+   own type set contains the common one; C13_py_spec_types_sound per field. *)
+Theorem C13_py_flat_formats : forall U M, ucd_chars U -> ucd_spec U M -> forall s sg args kw,
+  pybrace_parse U M s = Ok sg -> flat_guard U (S (length s)) s = true -> args_match sg args kw ->
+  cpy_format (u_decval U) s args kw = FSuccess.
+Proof. exact flat_formats. Qed.
+Print Assumptions C13_py_flat_formats.
+
+Theorem C13_py_flat_formats_generated_tables : forall s sg args kw,
+  pybrace_parse_gen s = Ok sg -> flat_guard gen_ucd (S (length s)) s = true -> args_match sg args kw ->
+  cpy_format re_d_value s args kw = FSuccess.
+Proof. exact gen_flat_formats. Qed.
+Print Assumptions C13_py_flat_formats_generated_tables.
+
 (* non-vacuity: "{²}" is a keyword field named "²" and "{٣}" is index 3, as for str.format; "{}{0}" is rejected (mixture);
    "{a} {:d} {!r:>5}" is accepted and formats *)
 Example C13_py_ex0 : pybrace_parse_gen [123; 178; 125] = Ok {| argument_map := [(KName [178], (t_all, 1%nat))] |} /\
@@ -148,5 +166,6 @@ Example C13_py_ex2 :
   pybrace_parse_gen [123;97;125;32;123;58;100;125;32;123;33;114;58;62;53;125]
     = Ok {| argument_map := [(KName [97], (t_all, 1%nat)); (KNum 0, ({| t_str := false; t_int := true; t_float := false |}, 1%nat));
                              (KNum 1, (t_all, 1%nat))] |} /\
-  cpy_format re_d_value [123;97;125;32;123;58;100;125;32;123;33;114;58;62;53;125] [BInt 7; BFloat] [([97], BStr [120])] = FSuccess.
-Proof. split; vm_compute; reflexivity. Qed.
+  cpy_format re_d_value [123;97;125;32;123;58;100;125;32;123;33;114;58;62;53;125] [BInt 7; BFloat] [([97], BStr [120])] = FSuccess /\
+  flat_guard gen_ucd 17 [123;97;125;32;123;58;100;125;32;123;33;114;58;62;53;125] = true.
+Proof. repeat split; vm_compute; reflexivity. Qed.
